@@ -259,7 +259,7 @@ def _check_cost_loop(rep, rule, gen, node, it, want_iter, want_cost, body_paths,
     for bp in body_paths:
         if bp.exit == "raise":
             continue
-        if bp.exit != "fall":
+        if bp.exit not in ("fall", "continue"):  # `continue` ends this lot's iteration like falling off the end: judged below by what the path did
             if once(f"cost-exit-{bp.exit}"):
                 rep.violation(rule, OP, gen.qualname, f"cost loop path ends by '{bp.exit}'", f"a path of the cost loop leaves the iteration by '{bp.exit}' at {loc(bp.exit_node)}: later lots would not be counted", loc(bp.exit_node))
             continue
@@ -347,6 +347,20 @@ def _delta_slot(val: Any, root: Any, path: Tuple[Any, ...]) -> Optional[Any]:
     return None
 
 
+def _unold(t: Any) -> Any:
+    """A read of a dictionary slot written as the pre-state `old(container, key)` or as the plain subscript: the same value once the collecting loops are over."""
+    if not isinstance(t, tuple) or not t:
+        return t
+    if t[0] == "old" and len(t) == 4:
+        return ("sub", _unold(t[1]), _unold(t[2]))
+    if t[0] == "slot" and len(t) == 3 and isinstance(t[2], tuple):
+        out = _unold(t[1])
+        for k in t[2]:
+            out = ("sub", out, _unold(k))
+        return out
+    return tuple(_unold(x) if isinstance(x, tuple) else x for x in t)
+
+
 def _is_sign_guard(c: Any, want: Any, positive: bool) -> bool:
     """c is '<the lot's unsold cost> > 0' (positive) or its negation."""
     if c[0] != "cmp":
@@ -428,6 +442,13 @@ def _check_balance_loop(rep, rule, gen, node, it, want_iter, body_paths, roles, 
         if not xs:
             xroot = roles.get("X")
             pres = xroot is not None and fl.present(xroot, (asset, holder, exchange))
+            chained = [n for n in ast.walk(node) if isinstance(n, ast.Call) and isinstance(n.func, ast.Attribute) and n.func.attr == "setdefault" and isinstance(n.func.value, (ast.Call, ast.Name))
+                       and (isinstance(n.func.value, ast.Call) or any(isinstance(a, (ast.Assign, ast.AnnAssign)) and isinstance(getattr(a, "value", None), ast.Call) and isinstance(a.value.func, ast.Attribute) and a.value.func.attr in ("setdefault", "get") and unparse(a.targets[0] if isinstance(a, ast.Assign) else a.target) == n.func.value.id for a in ast.walk(node)))]
+            if not pres and chained:
+                # the entry is written through an alias of an inner dictionary (x = d.setdefault(k, {}); x.setdefault(k2, v)): nested-dictionary aliases are not modelled
+                if once("bal-x-alias"):
+                    rep.defer_error(f"{loc(chained[0])}: the balance loop records entries through {short(chained[0], 80)} (an alias of an inner dictionary): [asset][holder][exchange] bookkeeping not decided for this shape")
+                continue
             if once("bal-x-missing" + str(pres)):
                 rep.check(pres, rule, OP, gen.qualname, "the (holder, exchange) entry is written unless it already exists", "a positive balance is added to its holder's total but not recorded under [asset][holder][exchange]: the 'Asset - Exchange' sheet would miss that account", loc(node))
             continue
@@ -531,6 +552,14 @@ def _check_report_loop(rep, rule, m, gen, gen_cls, top_loops, collect, roles) ->
                 reset_ok = bool(reset) and reset[-1][2][0] == "const" and reset[-1][2][1] == 0
                 ok_sum = acc_ok and it_ok and reset_ok
                 detail = f"'{acc}' is accumulated over {show(it)[:120]} (plain sum: {acc_ok}, starts from ZERO inside the asset's iteration: {reset_ok})"
+        if div[0] == "xcall" and div[1] == "sum" and div[2] is None and len(div[3]) == 2:
+            # the same total spelled sum(<holder balances>[asset].values(), ZERO)
+            vals, start = div[3]
+            zero_start = start[0] == "const" and not isinstance(start[1], bool) and start[1] == 0
+            recv = vals[2] if vals[0] == "xcall" and vals[1] == "values" and not vals[3] else None
+            is_slot = recv is not None and ((recv[0] == "old" and tkey(recv[1]) == tkey(H) and tkey(recv[2]) == tkey(ASSET)) or (recv[0] == "sub" and tkey(recv[1]) == tkey(H) and tkey(recv[2]) == tkey(ASSET)))
+            ok_sum = zero_start and is_slot
+            detail = f"the divisor is {show(div)[:120]} (sum from ZERO: {zero_start}, over this asset's holder balances: {is_slot})"
         if once("unit"):
             rep.check(ok_sum, rule, OP, gen.qualname, "per-unit cost = asset unrealized cost / sum of this asset's holder balances", f"per-unit cost is {show(unit_t)[:160]}; {detail}; expected <asset cost basis> / (ZERO + every value of {show(H)}[asset])", loc(report))
         unit = unit_t
@@ -641,7 +670,7 @@ def _check_rows(rep, rule, gen, node, body_paths, labels, names, bal, unit, tota
                     if once(f"{sheet_name}-{lab}-{tkey(v)}"):
                         rep.check(ok, rule, OP, gen.qualname, f"{sheet_name}: '{lab}' <- {show(names[lab])}", f"column '{lab}' (index {ci}) of the {sheet_name} table receives {show(v)[:160] if v else None}; expected {show(names[lab])} of the entry being written", loc(cnode))
                 else:
-                    ok = v is not None and same(v, want_num[lab])
+                    ok = v is not None and same(_unold(v), _unold(want_num[lab]))
                     if once(f"{sheet_name}-{lab}-{tkey(v)}"):
                         rep.check(ok, rule, OP, gen.qualname, f"{sheet_name}: '{lab}' <- {show(want_num[lab])[:80]}", f"column '{lab}' (index {ci}) of the {sheet_name} table receives {show(v)[:200] if v else None}; its header says it must show {says[lab]}: {show(want_num[lab])[:160]}", loc(cnode))
 
@@ -750,6 +779,8 @@ def _check_sold_percentage(rep, rule, m) -> None:
             for c in p.conds():
                 if c in (("truthy", lot), ("cmp", "is not", lot, ("const", None))):
                     continue
+                if c[0] == "cmp" and c[1] in FLIP and c[2] in (("sym", "from_date"), ("sym", "to_date")):
+                    c = ("cmp", FLIP[c[1]], c[3], c[2])  # bound on the left (`from_date <= d`): read as `d >= from_date`
                 if c[0] == "cmp" and tkey(c[2]) == tkey(lot_date) and c[3] in (("sym", "from_date"), ("sym", "to_date")) and c[1] in (">=", "<="):
                     if (c[3][1] == "from_date") == (c[1] == ">="):
                         continue
